@@ -1,8 +1,9 @@
 import PhotVerif.Driver.Basic
 import PhotVerif.Gen.BBox
 import PhotVerif.Gen.Geom
+import PhotVerif.Model.Mask
 namespace PhotVerif.Driver
-open PhotVerif PhotVerif.Gen
+open PhotVerif PhotVerif.Gen PhotVerif.Model
 
 instance : MathOps Rat := ⟨fun _ => 0, fun _ => 0, fun _ => 0, fun _ => 0,
   fun x => if x < 0 then -x else x, 0⟩  -- only `fabs` is meaningful on Rat; see handlers
@@ -23,6 +24,49 @@ def gridF (f : Nat → Nat → Except Err Float) (nx ny : Nat) : String :=
   match collect cells with
   | .ok l => "ok " ++ joinSp (l.map showFloat)
   | .error e => showErr e
+
+def parseMode? : String → Option Mode
+  | "center" => some .center | "subpixel" => some .subpixel | "exact" => some .exact | _ => none
+
+def parseOptRat? (s : String) : Option (Option Rat) :=
+  if s == "-" then some none else (parseRat? s).map some
+
+def trigInst (c s : Rat) : MathOps Rat :=
+  ⟨fun _ => 0, fun _ => 0, fun _ => s, fun _ => c, fun x => if x < 0 then -x else x, 0⟩
+
+def showMask (m : Except Err (AMask Rat)) : String :=
+  match m with
+  | .error e => showErr e
+  | .ok m =>
+    let (ny, nx) := m.bbox.shape
+    let ws := (List.range ny.toNat).flatMap fun j => (List.range nx.toNat).map fun i => showRat (m.w j i)
+    s!"ok {m.bbox.ixmin} {m.bbox.ixmax} {m.bbox.iymin} {m.bbox.iymax} | " ++ joinSp ws
+
+def handleMask (op : String) (args : List String) : Option String :=
+  match op, args with
+  | "mask.circ", [cx, cy, r, rin, mode, sp] => do
+      let cx ← parseRat? cx; let cy ← parseRat? cy; let r ← parseRat? r
+      let rin ← parseOptRat? rin; let mode ← parseMode? mode; let sp ← parseInt? sp
+      if mode == .exact then none else
+      some (showMask (circMask cx cy r rin mode sp))
+  | "mask.ell", [cx, cy, a, b, c, s, x0, x1, y0, y1, ai, bi, mode, sp] => do
+      let cx ← parseRat? cx; let cy ← parseRat? cy; let a ← parseRat? a; let b ← parseRat? b
+      let c ← parseRat? c; let s ← parseRat? s; let x0 ← parseRat? x0; let x1 ← parseRat? x1
+      let y0 ← parseRat? y0; let y1 ← parseRat? y1
+      let ai ← parseOptRat? ai; let bi ← parseOptRat? bi
+      let mode ← parseMode? mode; let sp ← parseInt? sp
+      if mode == .exact then none else
+      let inner := match ai, bi with | some x, some y => some (x, y) | _, _ => none
+      some (showMask (@ellMask Rat _ _ _ _ _ _ _ _ _ _ _ _ _ (trigInst c s) cx cy a b 0 x0 x1 y0 y1 inner mode sp))
+  | "mask.rect", [cx, cy, w, h, c, s, x0, x1, y0, y1, wi, hi, mode, sp] => do
+      let cx ← parseRat? cx; let cy ← parseRat? cy; let w ← parseRat? w; let h ← parseRat? h
+      let c ← parseRat? c; let s ← parseRat? s; let x0 ← parseRat? x0; let x1 ← parseRat? x1
+      let y0 ← parseRat? y0; let y1 ← parseRat? y1
+      let wi ← parseOptRat? wi; let hi ← parseOptRat? hi
+      let mode ← parseMode? mode; let sp ← parseInt? sp
+      let inner := match wi, hi with | some x, some y => some (x, y) | _, _ => none
+      some (showMask (@rectMask Rat _ _ _ _ _ _ _ _ _ _ _ _ _ (trigInst c s) cx cy w h 0 x0 x1 y0 y1 inner mode sp))
+  | _, _ => none
 
 def handleGeom (op : String) (args : List String) : Option String :=
   match op with
